@@ -24,3 +24,9 @@ def run(ck: Checker):
         server.check_bounded_wait(ck, 'C06-6', s)
         server.check_reject_at_once(ck, 'C06-7', s)
         server.check_remaining_time(ck, 'C06-8', s)
+    ck.rule('C06-9', 'the caller\'s timeout reaches the admission wait as given: re-bound only under `is None`, never replaced through truthiness (0 is legal) (GUARD)', minimum=4)
+    from .common import check_timeout_passthrough
+
+    for name in server.SERVERS:
+        s = server.discover(ck.repo, name)
+        check_timeout_passthrough(ck, 'C06-9', [m for m in s.cls.methods() if m.name in ('call', '_enqueue', 'stream', '_wait_for_result')])
